@@ -18,7 +18,7 @@ def kid(name, ctrl, match, val, la, marker=None):
 
 def fault_step(f):
     t = f["t"]
-    res = "things" if t["kind"] == "Thing" else "parents"
+    res = {"Thing": "things", "ControllerRevision": "controllerrevisions"}.get(t["kind"], "parents")
     return {"s": "fault", "a": "A", "code": f["code"], "verb": t["verb"], "res": res, "name": t["name"], "skip": t["nth"] - 1}
 
 
@@ -39,7 +39,10 @@ def convert(raw, sid):
         parent = {"res": "parents", "name": "p", "uid": "p1", "spec": {"selector": {"matchLabels": {"app": "x"}}}}
         objs = [parent, kid("b", False, True, "v1", False), kid("c", True, False, "v1", True),
                 kid("d", True, True, "old", True), kid("e", True, True, "v1", True)]
-        method = "InPlace" if base == "compInPlace" else "Recreate"
+        if base == "compRolling":
+            # ControllerRevisions take their labels from spec.template.metadata.labels, which must satisfy the selector
+            parent["spec"]["template"] = {"metadata": {"labels": {"app": "x"}}}
+        method = {"compInPlace": "InPlace", "compRecreate": "Recreate", "compRolling": "RollingRecreate"}[base]
         cfg = {"kind": "composite", "parentRes": "parents", "children": [{"res": "things", "method": method}], "finalize": True}
         hook = {"sync": {"prog": "const", "children": [des("a"), des("b"), des("d")], "status": {"ok": "1"}},
                 "finalize": {"prog": "drain", "status": {"ok": "1"}}}
